@@ -115,6 +115,9 @@ func genCases(seed int64, tier string) []core.Case {
 				if sc.Big {
 					bound, k, limit = 2, 3, 300
 				}
+				if sc.Variant {
+					bound = 2
+				}
 				if thorough {
 					bound, k, limit, n = -1, 4, 5000, 100
 					if sc.Big {
@@ -316,6 +319,7 @@ func post(a *core.Agg) string {
 	need("op_outcome_exists", 1)
 	need("op_outcome_pending", 1)
 	need("op_outcome_name-in-use", 1)
+	need("op_outcome_no-release", 1)
 	need("lin_histories_checked", 10)
 	need("race_ops_executed", 10)
 	need("race_driver_calls", 100)
